@@ -1,0 +1,20 @@
+//go:build verif
+
+package osm
+
+// Verification hooks for property C27 (add-only, compiled with -tags verif only): reach the
+// unexported single-block reader and the integer/float angle conversions from the harness.
+
+// VerifReadRawOSMDataBlob runs readRawOSMDataBlob on a marshalled PrimitiveBlock in the caller's
+// goroutine (so that a panic can be recovered by the caller).
+func VerifReadRawOSMDataBlob(blob []byte, emit Emit, options ReadOptions) error {
+	return readRawOSMDataBlob(blob, emit, options)
+}
+
+func VerifEncodeAngle(angle float64, offset int64, granularity int32) int64 {
+	return encodeAngle(angle, offset, granularity)
+}
+
+func VerifDecodeAngle(angle int64, offset int64, granularity int32) float64 {
+	return decodeAngle(angle, offset, granularity)
+}
